@@ -5,7 +5,8 @@ LEVEL = "proof"
 RULE = ("per KE group (paired with every OPRF suite for seeded derivation): private keys {tape-sampled, 1, order-1, small, clamped "
         "extremes}, seeds {random, all-zero, all-ones}: Diffie-Hellman symmetric, public key consistent with derivation, encodings "
         "round-trip exactly, derived key valid, non-zero and byte-equal to the model's DeriveDiffieHellmanKeyPair (RFC 7748 clamping "
-        "for Curve25519). distinct = distinct (suite, op, args)")
+        "for Curve25519); Curve25519 shared secrets with arbitrary peer shares (twist points, torsion components, non-reduced and "
+        "high-bit encodings) equal RFC 7748 X25519 (RFC vectors + the model's ladder). distinct = distinct (suite, op, args)")
 ASSUMPTIONS = ["that the concrete curve formulas form a group is not proved in Coq; DH symmetry is validated against the crate"]
 
 
@@ -42,6 +43,7 @@ def laws(ctx, n):
                 c = bytearray(sd); c[0] &= 248; c[31] &= 127; c[31] |= 64
                 ctx.expect(sk == bytes(c), "Curve25519 derivation is RFC 7748 clamping of the seed")
             sks.append(sk)
+    x25519_arbitrary_shares(ctx, 2 * n)
     pks = []
     for sk in sks:
         r = ctx.call("ke_sk", sk)
